@@ -61,23 +61,55 @@ def parseFault (s : String) : Option (IndexFile → RepoFile) :=
   | ["notindex"] => some fun _ => { readFails := false, stored := .sealed .notIndexJson }
   | _ => none
 
+def dropStr (n : Nat) (s : String) : String := String.ofList (s.toList.drop n)
+
+/-- the `supersedes` part `s=<refs>` of a file token (without the `s=`): `-` = the empty list; ref = `f<k>` (the id of the
+k-th index file of the op line — the model names that file `k`; the harness checks `k <` number of files, `parseFiles` too)
+or a 64-hex id (any other id). -/
+def parseRefs (s : String) : Option (List Nat) :=
+  if s = "-" then some [] else
+  (s.splitOn ",").mapM fun r =>
+    if r.length = 64 then parseId r
+    else match r.toList with
+      | 'f' :: ds => if !ds.isEmpty && ds.all Char.isDigit then (String.ofList ds).toNat? else none
+      | _ => none
+
+/-- is this `supersedes` entry (as parsed) a reference `f<k>` with `k ≥ n`?  (64-hex ids are never below `n` in practice;
+the harness rejects the same op lines by looking at the token) -/
+def refsOk (n : Nat) (s : String) : Bool :=
+  s = "-" || (s.splitOn ",").all fun r => r.length = 64 || (match (dropStr 1 r).toNat? with
+    | some k => k < n
+    | none => false)
+
 /-- file token → (content, what the repository stores for it, has a fault) -/
 def parseFile (s : String) : Option (IndexFile × RepoFile × Bool) :=
-  let mk (p d : String) (fault : Option String) : Option (IndexFile × RepoFile × Bool) :=
-    match parsePacks p, parsePacks d with
-    | some p, some d =>
-      let f : IndexFile := { packs := p, packsToDelete := d }
+  let mk (p d : String) (sup : Option String) (fault : Option String) : Option (IndexFile × RepoFile × Bool) :=
+    let sup? : Option (Option (List Nat)) := match sup with
+      | none => some none
+      | some r => (parseRefs r).map some
+    match parsePacks p, parsePacks d, sup? with
+    | some p, some d, some sup =>
+      let f : IndexFile := { supersedes := sup, packs := p, packsToDelete := d }
       match fault with
       | none => some (f, { readFails := false, stored := .sealed (.file f) }, false)
       | some ft => (parseFault ft).map fun g => (f, g f, true)
-    | _, _ => none
+    | _, _, _ => none
   match s.splitOn "|" with
-  | [p, d] => mk p d none
-  | [p, d, ft] => mk p d (some ft)
+  | [p, d] => mk p d none none
+  | [p, d, x] => if x.startsWith "s=" then mk p d (some (dropStr 2 x)) none else mk p d none (some x)
+  | [p, d, x, ft] => if x.startsWith "s=" then mk p d (some (dropStr 2 x)) (some ft) else none
   | _ => none
 
+/-- every `f<k>` reference names a file of the op line -/
+def refsInRange (toks : List String) : Bool :=
+  toks.all fun s => match s.splitOn "|" with
+    | _ :: _ :: x :: _ => if x.startsWith "s=" then refsOk toks.length (dropStr 2 x) else true
+    | _ => true
+
 def parseFiles (s : String) : Option (List (IndexFile × RepoFile × Bool)) :=
-  if s = "-" then some [] else (s.splitOn "/").mapM parseFile
+  if s = "-" then some [] else
+  let toks := s.splitOn "/"
+  if refsInRange toks then toks.mapM parseFile else none
 
 /-- the content part `<packs>|<packs_to_delete>` of a file token (equal content = equal index id = one file) -/
 def contentPart (s : String) : String :=
